@@ -36,7 +36,8 @@ Objects ==
         [cls |-> "polygon", rows |-> <<IdealPts[1], IdealPts[2], IdealPts[3], IdealPts[4], InteriorPts[1]>>]}
   \cup {[cls |-> "simplex", rows |-> <<InteriorPts[1], InteriorPts[2], InteriorPts[7]>>]}
   \* tangent vectors (x, w) = h.(e_1, e_2) for exact h, so <x, w> = 0 exactly
-  \cup {[cls |-> "tangent", rows |-> <<Act(AtomVal(h), E1)>>, vec |-> PrimPos(MatVec(AtomVal(h)[1], Pad(<<0, 1>>)))] :
+  \cup {[cls |-> "tangent", rows |-> <<Act(AtomVal(h), E1)>>, vec |-> PrimPos(MatVec(AtomVal(h)[1], Pad(<<0, 1>>))),
+         frame |-> AtomVal(h)] :
           h \in {[k |-> "origin_to", x |-> Pad(<<3, 2, 2>>)], [k |-> "lox", p |-> 2, q |-> 1],
                  [k |-> "rot", a |-> 3, b |-> 4, c |-> 5], [k |-> "origin_to", x |-> Pad(<<5, 0, 0 - 4>>)]}}
   \cup {[cls |-> "horosphere", rows |-> <<IdealPts[i], InteriorPts[j]>>] : i \in {2, 4}, j \in {1, 3}}
